@@ -5,13 +5,10 @@
 (* `name in context` and getattr for the whole name pool, executed         *)
 (* cleanups).  One TLC state per operation.  The property monitor          *)
 (* (Context!MonStep) consumes the OBSERVED rows; a fired clause is printed *)
-(* as <<"VERDICT", row id, clause, step, op code, detail, kf number>>      *)
+(* as <<"VERDICT", row id, clause, step, op code, detail>>                 *)
 (* (short, PrintT wraps tuples longer than 80 characters).  The            *)
 (* implementation model runs alongside only to report where prediction     *)
-(* and observation differ (<<"DIVERGE", id, step>>, informational) and to  *)
-(* label a verdict with the known-finding predicate that explains it      *)
-(* (KF_C13_1 speaks about the model's _record set, so it is only used while *)
-(* model and observation agree; KF_C13_2/3 speak about observations only). *)
+(* and observation differ (<<"DIVERGE", id, step>>, informational).         *)
 EXTENDS Context, TLC, Json, IOUtils
 Rows == ndJsonDeserialize(IOEnv.TRACE_FILE)
 
@@ -19,7 +16,6 @@ VARIABLES i, k, s, m, nv            \* nv = number of verdicts printed so far (c
 vars == <<i, k, s, m, nv>>
 Init == i = 1 /\ k = 1 /\ s = SInit /\ m = MInit /\ nv = 0
 
-KFNum(x) == CASE x = "KF_C13_1" -> 1 [] x = "KF_C13_2" -> 2 [] x = "KF_C13_3" -> 3 [] OTHER -> 0
 \* total: a malformed observation (wrong length, codes out of range) is a verdict, never a crash
 WellFormed(op, ob) == /\ Len(op) = 4 /\ op[1] \in 1..14
                       /\ Len(ob) >= 3 + 2 * NP
@@ -32,11 +28,8 @@ Step(row) ==
        wf == WellFormed(op, ob)
        pr == Apply(s, op, k)
        mv == MonStep(m, op, ob, k)
-       kfs == KFs(s, m, op, ob)
-   IN /\ IF ~wf THEN PrintT(<<"VERDICT", row.id, "malformed_row", k, 0, "malformed", 0>>)
-         ELSE /\ \A x \in mv.v : PrintT(<<"VERDICT", row.id, x[1], k, op[1], x[2],
-                                           IF KFOf(x) \in kfs /\ (pr.ob = ob \/ KFOf(x) # "KF_C13_1")
-                                           THEN KFNum(KFOf(x)) ELSE 0>>)
+   IN /\ IF ~wf THEN PrintT(<<"VERDICT", row.id, "malformed_row", k, 0, "malformed">>)
+         ELSE /\ \A x \in mv.v : PrintT(<<"VERDICT", row.id, x[1], k, op[1], x[2]>>)
               /\ (pr.ob # ob => PrintT(<<"DIVERGE", row.id, k>>))
       /\ nv' = nv + (IF wf THEN Cardinality(mv.v) ELSE 1)
       /\ IF k < Len(row.ops)
@@ -47,7 +40,7 @@ Step(row) ==
 Next == /\ i <= Len(Rows)
         /\ LET row == Rows[i]
            IN IF Len(row.ops) = 0 \/ Len(row.ops) # Len(row.obs)
-              THEN /\ PrintT(<<"VERDICT", row.id, "malformed_row", 0, 0, "malformed", 0>>)
+              THEN /\ PrintT(<<"VERDICT", row.id, "malformed_row", 0, 0, "malformed">>)
                    /\ i' = i + 1 /\ k' = 1 /\ s' = SInit /\ m' = MInit /\ nv' = nv + 1
               ELSE Step(row)
 Spec == Init /\ [][Next]_vars
